@@ -131,7 +131,7 @@ func trunc(b []byte, n int) []byte {
 func TestGeneratedPrograms(t *testing.T) {
 	harness.Check(t, "programs", 40000, 1500000, func(rt *rapid.T) {
 		v := rapid.SampledFrom(px.KeyVersions).Draw(rt, "version")
-		o := progs.Options(v)
+		o := progs.StructuralOptions(v)
 		o.LeadHTML = progs.Padding(rt)
 		c := progs.Draw(rt, v, o, 1, 4)
 		kind := rapid.SampledFrom([]phpgen.PolicyKind{phpgen.PolicyMinimal, phpgen.PolicySpace, phpgen.PolicyWhitespace, phpgen.PolicyFull, phpgen.PolicyFull}).Draw(rt, "policy")
@@ -157,7 +157,7 @@ func TestGeneratedPrograms(t *testing.T) {
 func TestLargePrograms(t *testing.T) {
 	harness.Check(t, "large", 150, 6000, func(rt *rapid.T) {
 		v := rapid.SampledFrom([]px.Ver{px.V56, px.V74}).Draw(rt, "version")
-		o := progs.Options(v)
+		o := progs.StructuralOptions(v)
 		o.NoHalt = true
 		c := progs.Draw(rt, v, o, 120, 200)
 		lay := c.G.Render(c.Root, progs.Policy(rt, phpgen.PolicyFull, nil))
